@@ -129,9 +129,13 @@ package sender
 //@ func (*sender.filterRule).matches
 //@   ensures[C13] [plain-name-match] result <==> ruleMatches(fr, name)
 
+// excludedFrom(l, name, i): the decision of rules i, i+1, ...: the first one
+// that matches decides (exclude => true, include => false); none => false.
+//@ spec rec func excludedFrom(l: *sender.filterRuleList, name: Str, i: int): bool = ite(i >= len(l.Filters), false, ite(ruleMatches(l.Filters[i], name), !ruleIsInclude(l.Filters[i]), excludedFrom(l, name, i + 1)))
+
 //@ func (*sender.filterRuleList).matches
-//@   ensures[C13] [first-match-wins] result <==> (exists j :: 0 <= j && j < len(l.Filters) && ruleMatches(l.Filters[j], name) && !ruleIsInclude(l.Filters[j]) && (forall k :: 0 <= k && k < j ==> !ruleMatches(l.Filters[k], name)))
-//@   loop[C13] 0: invariant [earlier-rules-do-not-match] -1 <= rangeindex && (forall k :: 0 <= k && k <= rangeindex ==> !ruleMatches(l.Filters[k], name))
+//@   ensures[C13] [first-match-wins] result <==> excludedFrom(l, name, 0)
+//@   loop[C13] 0: invariant [earlier-rules-do-not-match] -1 <= rangeindex && (excludedFrom(l, name, 0) <==> excludedFrom(l, name, rangeindex + 1))
 
 //@ func sender.parseFilter
 //@   ensures[C13] [exclude-prefix] err == nil && hasPrefix(line, "- ") ==> result.pattern == trimPrefix(line, "- ") && mod(result.flag, 2) == 0
